@@ -49,6 +49,12 @@ Theorem C17_shard_pred : forall ops st, mrun true minit ops = Some st ->
 Proof. exact shard_case_pred. Qed.
 Print Assumptions C17_shard_pred.
 
+(* a whole request through the proxy: one matcher per store, each closed twice *)
+Theorem C17_proxy_pred : forall k sharded st, mrun true minit (proxy_ops k sharded) = Some st ->
+  pred_ok (CProxy k sharded (negb (nodup_n (mpool st)))) = true.
+Proof. exact proxy_case_pred. Qed.
+Print Assumptions C17_proxy_pred.
+
 (* before the fix every Close put the buffer again: closed twice (as ProxyStore.Series does,
    see C17_source_shape) the buffer is in the pool twice and the next two matchers share it
    (corpus/C17/02) *)
@@ -81,5 +87,7 @@ Print Assumptions C17_source_shape.
 Example C17_nonvacuous :
   prun true [10; 20; 40; 80] 100 pinit [PGet 40; PGet 19; PGet 50; PPut 0; PGet 50; PPut 0; PPut 0]
     = [(true, 40, 40); (true, 20, 60); (false, 0, 60); (true, 0, 20); (true, 80, 100); (true, 0, 80); (true, 0, 0)] /\
-  option_map mpool (mrun true minit [MNew true 0; MNew true 1; MClose 1; MClose 1; MNew true 1; MClose 0]) = Some [0].
-Proof. split; vm_compute; reflexivity. Qed.
+  option_map mpool (mrun true minit [MNew true 0; MNew true 1; MClose 1; MClose 1; MNew true 1; MClose 0]) = Some [0] /\
+  option_map mpool (mrun true minit (proxy_ops 3 true)) = Some [2; 1; 0] /\
+  option_map mpool (mrun false minit (proxy_ops 2 true)) = Some [1; 1; 0; 0].
+Proof. repeat split; vm_compute; reflexivity. Qed.
